@@ -232,9 +232,15 @@ func lemmaDigitsEndRange(s string, i int) bool {
 }
 
 // The decimal literal grammar of the lexer (ECMA-262 12.9.3 DecimalLiteral without the forms `1.` and `.5`): digits, then
-// a fraction only if the dot is followed by a digit -- the printers rely on this: `5.x` is the member x of the integer
-// 5 --, then an exponent part. An exponent marker without digits still belongs to the token (malformed literal).
-func hasFrac(s string, j int) bool { return byteAt(s, j) == '.' && specDigit(byteAt(s, j+1)) }
+// a fraction if the dot is followed by a digit or by a complete exponent part (`1.e3` is the number 1000) -- otherwise the
+// dot is not part of the literal, and the printers rely on this: `5.x` is the member x of the integer 5 --, then an
+// exponent part. An exponent marker without digits still belongs to the token (malformed literal).
+func hasFrac(s string, j int) bool {
+	return byteAt(s, j) == '.' && (specDigit(byteAt(s, j+1)) || expPart(s, j+1))
+}
+
+// expPart: a complete exponent part (marker, optional sign, at least one digit) starts at k.
+func expPart(s string, k int) bool { return hasExp(s, k) && specDigit(byteAt(s, expDigits(s, k))) }
 func fracEnd(s string, j int) int {
 	if hasFrac(s, j) {
 		return digitsEnd(s, j+1)
@@ -470,6 +476,12 @@ func specStay(v int) bool {
 //@   ensures [cursor] lexInv(l)
 //@   ensures [slice] result == l.input[old(l.position):l.position]
 //@   ensures [maximal] l.position == identEnd(l.input, old(l.position))
+
+// exponentAt == expPart: a complete exponent part starts at offset i (pure).
+//@ func (l *Lexer) exponentAt(i)
+//@   props C10 C11 C07 C03 C01
+//@   requires l != nil
+//@   ensures [class@C10,C07,C03,C01] result == expPart(l.input, i)
 
 //@ func (l *Lexer) readNumber()
 //@   props C10 C11 C07 C03 C01
